@@ -13,15 +13,15 @@ import (
 // C17 (data): the list queries return exactly the stored rows of the IRI / URL, from an
 // arbitrary table content satisfying R16; default pagination, at most `iter` rows.
 
-func install17() {
-	install16()
+func zzvInstall17() {
+	zzvInstall16()
 	// IRI syntax is decided at byte level by the C15 kernels; here it is a predicate
-	zz.Summarize(dataPkg + ".ParseIRI")
+	zz.Summarize(zzvDataPkg + ".ParseIRI")
 }
 
 func VerifHarness_C17_AttestationsByIRI() {
-	install17()
-	s := symServer()
+	zzvInstall17()
+	s := zzvSymServer()
 	req := &data.QueryAttestationsByIRIRequest{}
 	zz.NondetInto("req", req)
 	req.Pagination = nil
@@ -54,13 +54,13 @@ func VerifHarness_C17_AttestationsByIRI() {
 	zz.Reach("query succeeds")
 }
 
-func resolverInfoOK(r *data.ResolverInfo, row *api.Resolver) bool {
+func zzvResolverInfoOK(r *data.ResolverInfo, row *api.Resolver) bool {
 	return zz.And(r.Url == row.Url, r.Manager == sdk.AccAddress(row.Manager).String())
 }
 
 func VerifHarness_C17_ResolversByIRI() {
-	install17()
-	s := symServer()
+	zzvInstall17()
+	s := zzvSymServer()
 	req := &data.QueryResolversByIRIRequest{}
 	zz.NondetInto("req", req)
 	req.Pagination = nil
@@ -76,7 +76,7 @@ func VerifHarness_C17_ResolversByIRI() {
 		var row api.Resolver
 		has := zz.OrmRow0(tResolver, &row, r.Id)
 		zz.Assert(zz.And(has, zz.OrmExists0(tDataResolver, id.Id, r.Id)), "C17 ResolversByIRI returns only resolvers the IRI is registered to")
-		zz.Assert(resolverInfoOK(r, &row), "C17 ResolversByIRI returns the stored fields of each resolver")
+		zz.Assert(zzvResolverInfoOK(r, &row), "C17 ResolversByIRI returns the stored fields of each resolver")
 		for j := 0; j < i; j++ {
 			zz.Assert(res.Resolvers[j].Id != r.Id, "C17 ResolversByIRI returns no resolver twice")
 		}
@@ -93,8 +93,8 @@ func VerifHarness_C17_ResolversByIRI() {
 }
 
 func VerifHarness_C17_ResolversByURL() {
-	install17()
-	s := symServer()
+	zzvInstall17()
+	s := zzvSymServer()
 	req := &data.QueryResolversByURLRequest{}
 	zz.NondetInto("req", req)
 	req.Pagination = nil
@@ -108,7 +108,7 @@ func VerifHarness_C17_ResolversByURL() {
 		var row api.Resolver
 		has := zz.OrmRow0(tResolver, &row, r.Id)
 		zz.Assert(zz.And(has, row.Url == req.Url), "C17 ResolversByURL returns only resolvers with the URL")
-		zz.Assert(resolverInfoOK(r, &row), "C17 ResolversByURL returns the stored fields of each resolver")
+		zz.Assert(zzvResolverInfoOK(r, &row), "C17 ResolversByURL returns the stored fields of each resolver")
 		for j := 0; j < i; j++ {
 			zz.Assert(res.Resolvers[j].Id != r.Id, "C17 ResolversByURL returns no resolver twice")
 		}
